@@ -197,7 +197,7 @@ pub fn run(ctx: &Ctx) {
     });
 
     // (ii) random documents x styles through proptest (shrinkable)
-    let cases = ctx.tier.pick(40_000u64, 1_500_000u64);
+    let cases = ctx.tier.pick(400_000u64, 3_000_000u64);
     let reach: Vec<Vec<usize>> = (0..NVER).map(reachable).collect();
     let strat = (0..NVER, any::<u32>(), proptest::collection::vec(any::<u32>(), 0..160), proptest::collection::vec(any::<u32>(), 0..260), prop_oneof![Just(8usize), Just(30usize), Just(120usize)], any::<u8>());
     run_prop(ctx, "docs", cases, strat, |(vi, tsel, tape, style, budget, pl), st| {
